@@ -1187,7 +1187,7 @@ pub fn run(report: &mut Report, replay: Option<&Value>) {
     }
     super::replay_corpus(report, &|r, v| replay_one(r, &ctx, v));
 
-    let budget: usize = if report.thorough() { 4000 } else { 300 };
+    let budget: usize = if report.thorough() { 4000 } else { 1000 };
     let tapes = sample_tapes(report.seed, 0xC20, budget, TAPE_LEN);
     let cases: Vec<Case> = tapes.iter().map(|tp| gen_case(tp)).collect();
     let results: Mutex<Vec<Option<Result<(Obs, Verdict), String>>>> = Mutex::new((0..cases.len()).map(|_| None).collect());
